@@ -461,3 +461,63 @@ def run_loopzip(rep, ctx, anchor, proof_adts, rule="R4c"):
                         "positions are checked - no length comparison dominates it and the vector is never accessed by "
                         "position" % (t["span"], name), t["span"])
     return n
+
+
+# ---------------------------------------------------------------------------------------------------------
+# R4p: the proof list is paired with the claims by position (index loop) instead of by zip
+def run_positional(rep, ctx, anchor, rule="R4a"):
+    """positional (bounds-checked) reads of the proof list: each must be dominated by a branch whose condition is
+    derived from a length observation of the proof list and from one of something that is not the proof list
+    (otherwise surplus claims are simply never looked at). Returns the number of such reads."""
+    g = ctx.graph(anchor)
+    f = ctx.facts
+    idx = anchor.roles.get("proof")
+    if idx is None:
+        return 0
+    root = (anchor.body.id, idx)
+    V = views(g, {root})
+    lp = data_closure(g, shape_seeds(g, V))
+    all_seeds = set()
+    for a, es in g.fwd.items():
+        if a in V:
+            continue
+        for e in es:
+            if e.op == SHAPE and e.kind == DATA and e.dst != OUTCOME:
+                all_seeds.add(e.dst)
+    lo = data_closure(g, all_seeds - shape_seeds(g, V), limit=20000)
+    conds = branch_conditions(g)
+    memo = {}
+    n = 0
+    per_body = defaultdict(int)
+    for bid in sorted(g.scope):
+        b = f.bodies[bid]
+        sites = []
+        for i, blk in enumerate(b.blocks):
+            for st in blk["stmts"]:
+                rv = st["rv"]
+                pls = [rv["pl"]] if rv.get("k") in ("ref", "rawptr", "discr") else \
+                    [o["pl"] for o in rv.get("ops", []) if o["k"] in ("copy", "move")]
+                for pl in pls:
+                    if (bid, pl["l"]) in V and any(isinstance(e, dict) and ("idx" in e or "cidx" in e) for e in pl["p"]):
+                        sites.append((i, blk["term"].get("span") or b.span))
+            t = blk["term"]
+            if t["k"] == "call" and (t.get("callee") or "") in INDEX_CALLEES and t["args"] and \
+                    t["args"][0]["k"] in ("copy", "move") and (bid, t["args"][0]["pl"]["l"]) in V:
+                sites.append((i, t["span"]))
+        seen_blk = set()
+        for (i, span) in sites:
+            if i in seen_blk:
+                continue
+            seen_blk.add(i)
+            n += 1
+            k = per_body[bid]
+            per_body[bid] += 1
+            guards = [(gb, gi) for (gb, gi, c) in conds if c in lp and c in lo]
+            good = [gs for gs in guards if guard_dominates(g, gs, (bid, i), memo)]
+            key = "%s:positional@%s#%d" % (anchor.key, short(bid), k)
+            rep.add(rule, key, bool(good),
+                    ("positional read of the proof list at %s is guarded by the length comparison at %s" % (span, where_of(f, *good[0])))
+                    if good else
+                    ("the proof list is read by position at %s but no dominating branch compares its length with the "
+                     "claims': surplus claims or proofs go unnoticed" % span), span)
+    return n
